@@ -16,7 +16,7 @@ M = [
     ("c04_ramp_le", "C04", "src/colvargrid.h", "    if ( weight <= min_samples ) {\n      fact = 0.0;", "    if ( weight < min_samples ) {\n      fact = 0.0;"),
     ("c04_no_periodic_average", "C04", "src/colvarbias_abf.cpp", "      force[0] = force[0] - gradients->average();", "      force[0] = force[0];"),
     ("c04_sample_step0", "C04", "src/colvarbias.cpp", "  if (((cvm::step_relative() > 0) && !proxy->simulation_continuing()) ||", "  if (((cvm::step_relative() >= 0) && !proxy->simulation_continuing()) ||"),
-    ("c01_distance_sign", "C01", "src/colvarcomp_distances.cpp", "  group2->set_weighted_gradient(       dist_v_normalized);", "  group2->set_weighted_gradient(-1.0 * dist_v_normalized);"),
+    ("c01_distance_sign", "C01", "src/colvarcomp_distances.cpp", "  group2->set_weighted_gradient(       u);", "  group2->set_weighted_gradient(-1.0 * u);"),
     ("c01_restraint_width", "C01", "src/colvarbias_restraint.cpp", "  return -0.5 * force_k / (variables(i)->width * variables(i)->width) *", "  return -0.5 * force_k / (variables(i)->width) *"),
     ("c02_round_floor", "C02", "src/colvarproxy_system.cpp", "  return int(cvm::floor(x+0.5));", "  return int(cvm::floor(x));"),
     ("c18_wrap_half", "C18", "src/colvarcomp.cpp", "    cvm::real const shift = cvm::floor((x_unwrapped.real_value - wrap_center) / period + 0.5);", "    cvm::real const shift = cvm::floor((x_unwrapped.real_value - wrap_center) / period);"),
